@@ -202,6 +202,7 @@ func runBreaker(sc Scenario, tr *Trace, seed int64) {
 			}
 			fb0 := s.fbCount.Load()
 			started[id] = verifhook.Now()
+			s.drv.precancel = boolOr(st, "precancel", false) // a request its client has already abandoned is a request like any other
 			adm, res := s.drv.start(id, "s1")
 			trans, _ := s.take()
 			count(trans)
